@@ -348,6 +348,12 @@ def directed():
         for init in ("default", [2, 0, 1, 5, 0]):
             yield {"keys": [3, 7, 11, 20, 41], "kdtype": "int64", "mod": None, "mod2": 3, "init": init, "perm": [], "cuts": [1000, 100000, 100001],
                    "batches": [{"kind": "huge", "gen": {"n": n_, "mult": 3, "extra": [5, 99, -4] if n_ < 2 ** 20 else []}}]}
+    # samples handed over as doubles (all of them whole numbers that the key type holds), one of them a key beyond 2**53, ordinary hits after it
+    for bigkey_ in (2 ** 62, 2 ** 53, 2 ** 60 + 2 ** 9):
+        for kd_ in ("int64", "uint64"):
+            for mod_ in (None, 1, 7):
+                yield {"keys": [3, 5, bigkey_, 11], "kdtype": kd_, "mod": mod_, "mod2": 3, "init": "default", "perm": [], "cuts": [2],
+                       "batches": [{"kind": "othersign", "samples": [bigkey_, 3, 3, 5, 4, 3], "sdtype": "float64"}, {"kind": "othersign", "samples": [11, bigkey_, 2 ** 40, 11], "sdtype": "float64"}]}
     # one common start value (a plain python number) just below / above what 32 bits count: the totals are 64-bit numbers from the first hit on
     for init_ in (2 ** 31 - 3, 2 ** 31 - 1, 2 ** 31 + 5, 2 ** 32 - 2, 2 ** 40, 2 ** 15 - 2, 2 ** 16 - 2):
         for kd_ in ("int64", "int32", None):
